@@ -88,7 +88,9 @@ func genHistory(t *rapid.T) []stack.Op {
 				continue
 			}
 			s := rapid.IntRange(0, nsess-1).Draw(t, "sess")
-			ops = append(ops, stack.Op{Kind: "mod", Peer: -2, Sess: s, Takeover: true, Node: sessNode[s], Rules: g.GenRules(t, false)})
+			// Node -3: "the node this session was established under", resolved when the step runs, so that the op keeps
+			// its meaning when the minimiser drops earlier establishments
+			ops = append(ops, stack.Op{Kind: "mod", Peer: -2, Sess: s, Takeover: true, Node: -3, Rules: g.GenRules(t, false)})
 		case "mod":
 			if nsess == 0 {
 				continue
@@ -189,6 +191,16 @@ func run(c Case) (res result) {
 			op.Peer = 0
 			if op.Sess >= 0 && op.Sess < len(r.Sess) {
 				op.Peer = r.Sess[op.Sess].Node
+			}
+		}
+		if op.Takeover && op.Node == -3 {
+			// the node that owns the session living under the addressed SEID now (the reference may be to an ended session
+			// whose SEID has been re-issued to another node's session)
+			op.Takeover, op.Node = false, 0
+			if seid, ok := r.SEID(op); ok {
+				if s := live[seid]; s != nil {
+					op.Takeover, op.Node = true, s.node
+				}
 			}
 		}
 		// which sessions may this op touch?
